@@ -1,4 +1,6 @@
 import GeosModel.Model.Relate.Agree
+import GeosModel.Model.Relate.ScratchPoint
+import GeosModel.Proofs.Relate.RectFastLemmas
 /-!
 # C02 — all evaluation paths of a topological question agree
 
@@ -241,3 +243,184 @@ example : consistent (obsFrom ⟨2, 1, 2, 1, 0, 1, 2, 1, 2⟩ 2 2 ["T*T***T**".t
 example : (predsOf (⟨2, 1, 2, 1, 0, 1, 2, 1, 2⟩ : IM) 2 2) = [true, false, false, false, false, false, true, false, false, false] := by decide
 
 end GeosModel.Relate
+
+
+/-!
+## The rectangle fast path (`RectangleIntersects::intersects`, Model/Relate/RectFast.lean)
+
+`intersects` with a rectangle argument and `PreparedPolygon::intersects` of a prepared rectangle are answered by three
+short-circuited visitors instead of a relate matrix.  For the agreement "named predicate = pattern match of relate" the
+fast path must not overlook an intersection.  Proved for ALL rectangles (any vertex list), geometries and `Int`
+coordinates: an intersection witnessed by two crossing segments — the element's segment taken from ANY linear component,
+for a polygon shell or hole alike — or by a rectangle corner that `locatePointInSurface` does not put in the exterior is
+always reported: none of the envelope pre-filters in front of the visitors can discard it.  Not proved: the converse for
+the "bisected envelope" shortcut (it rests on connectedness of a valid element; checked by stream rect-fast against the
+witness reference `refIntersects` on valid input).
+-/
+namespace GeosModel.RectFast
+open GeosModel GeosModel.Kernel GeosModel.SegSeg GeosModel.PolyLocate
+
+/-- the answer is the disjunction of the three visitors behind the whole-geometry envelope test -/
+theorem rectIntersects_iff (rect : List Pt) (g : List Elem) :
+    rectIntersects rect g = true ↔
+      Env.inter (envOfPts rect) (geomEnv g) = true ∧
+        ((∃ e ∈ g, envStage (envOfPts rect) e = true) ∨ (∃ e ∈ g, cornerStage (envOfPts rect) rect e = true) ∨
+         (∃ e ∈ g, lineStage (envOfPts rect) rect e = true)) := by
+  simp [rectIntersects, List.any_eq_true, or_assoc]
+
+/-- `rectStage` names the deciding visitor of `rectIntersects` -/
+theorem rectIntersects_eq_stage (rect : List Pt) (g : List Elem) :
+    rectIntersects rect g = decide (rectStage rect g = 1 ∨ rectStage rect g = 2 ∨ rectStage rect g = 3) := by
+  unfold rectIntersects rectStage
+  simp only
+  by_cases a : Env.inter (envOfPts rect) (geomEnv g) = true <;>
+    by_cases b : g.any (envStage (envOfPts rect)) = true <;>
+    by_cases c : g.any (cornerStage (envOfPts rect) rect) = true <;>
+    by_cases d : g.any (lineStage (envOfPts rect) rect) = true <;> simp [a, b, c, d]
+
+/-- **a crossing is never overlooked**: if a segment `t` of a linear component `l` of an element (`l` ANY ring of a
+polygon: shell or hole) shares a point with a segment `s` of the rectangle ring, the fast path answers true.  The
+only hypothesis: the vertices of `l` lie in the element's envelope (always for lines and shells; for a hole it says the
+hole lies in the shell's envelope, as in every valid polygon). -/
+theorem rectIntersects_of_crossing {rect : List Pt} {g : List Elem} {e : Elem} {l : List Pt} {s t : Pt × Pt}
+    (he : e ∈ g) (hl : l ∈ e.lines) (hs : s ∈ edges rect) (ht : t ∈ edges l)
+    (hx : segRel s.1 s.2 t.1 t.2 ≠ .disjoint)
+    (hin : ∀ p ∈ l, Env.containsPt e.env p.x p.y = true) :
+    rectIntersects rect g = true := by
+  have hseg : segHas s.1 s.2 t.1 t.2 = true := (segHas_iff _ _ _ _).mpr hx
+  have henv := segHas_env hseg
+  obtain ⟨s1, s2⟩ := edges_mem rect s hs
+  obtain ⟨t1, t2⟩ := edges_mem l t ht
+  obtain ⟨rb, hrb, r1⟩ := envOfPts_mem rect s.1 s1
+  obtain ⟨rb', hrb', r2⟩ := envOfPts_mem rect s.2 s2
+  rw [hrb] at hrb'; cases hrb'
+  obtain ⟨eb, heb, e1⟩ := containsPt_some (hin t.1 t1)
+  obtain ⟨eb', heb', e2⟩ := containsPt_some (hin t.2 t2)
+  rw [heb] at heb'; cases heb'
+  have hi : Env.inter (envOfPts rect) e.env = true := by
+    rw [hrb, heb]; exact inter_of_segEnv r1 r2 e1 e2 henv
+  rw [rectIntersects_iff]
+  refine ⟨inter_geomEnv _ g e he hi, Or.inr (Or.inr ⟨e, he, ?_⟩)⟩
+  unfold lineStage
+  rw [hi, Bool.true_and, List.any_eq_true]
+  refine ⟨l, hl, ?_⟩
+  unfold lineHas
+  rw [List.any_eq_true]
+  refine ⟨s, hs, ?_⟩
+  rw [List.any_eq_true]
+  exact ⟨t, ht, hseg⟩
+
+/-- **a contained corner is never overlooked**: one of the first four rectangle vertices not in the exterior of a
+polygon element by `SimplePointInAreaLocator::locatePointInSurface` makes the fast path answer true -/
+theorem rectIntersects_of_corner {rect : List Pt} {g : List Elem} {rings : List (List Pt)} {c : Pt}
+    (he : Elem.polygon rings ∈ g) (hc : c ∈ rect.take 4)
+    (hloc : locatePointInPolygon c rings ≠ .exterior) :
+    rectIntersects rect g = true := by
+  cases rings with
+  | nil => exact absurd rfl hloc
+  | cons shell holes =>
+    have hec : envContains shell c = true := by
+      by_contra hn
+      have hf : envContains shell c = false := by simpa using hn
+      apply hloc
+      simp [locatePointInPolygon, hf]
+    obtain ⟨eb, heb, e1⟩ := envContains_box hec
+    obtain ⟨rb, hrb, r1⟩ := envOfPts_mem rect c (List.mem_of_mem_take hc)
+    have henv : (Elem.polygon (shell :: holes)).env = some eb := heb
+    have hi : Env.inter (envOfPts rect) (Elem.polygon (shell :: holes)).env = true := by
+      rw [hrb, henv]; exact inter_of_common r1 e1
+    rw [rectIntersects_iff]
+    refine ⟨inter_geomEnv _ g _ he hi, Or.inr (Or.inl ⟨_, he, ?_⟩)⟩
+    unfold cornerStage
+    simp only
+    rw [hi, Bool.true_and, List.any_eq_true]
+    refine ⟨c, hc, ?_⟩
+    rw [henv, (containsPt_iff eb c).mpr e1, Bool.true_and]
+    simpa using hloc
+
+/-- the same with the even–odd specification `Kernel.locateInPolygon` of the polygon (closed rings, holes separate at
+the corner): a corner in the closed polygon makes the fast path answer true -/
+theorem rectIntersects_of_corner_spec {rect : List Pt} {g : List Elem} {rings : List (List Pt)} {c : Pt}
+    (he : Elem.polygon rings ∈ g) (hc : c ∈ rect.take 4)
+    (hclosed : ∀ r ∈ rings, RayCount.Closed r) (hsep : HolesSeparateAt c rings.tail)
+    (hloc : locateInPolygon c rings ≠ .exterior) :
+    rectIntersects rect g = true :=
+  rectIntersects_of_corner he hc (by rw [locatePointInPolygon_eq c rings hclosed hsep]; exact hloc)
+
+/-- the "covered envelope" branch of the envelope visitor has a witness: every vertex of a vertex list whose envelope
+the rectangle's envelope covers lies in the closed rectangle -/
+theorem covered_vertices_inRect {rect l : List Pt} (h : Env.covers (envOfPts rect) (envOfPts l) = true) :
+    ∀ p ∈ l, inRect (envOfPts rect) p = true := by
+  intro p hp
+  obtain ⟨lb, hlb, hb⟩ := envOfPts_mem l p hp
+  rw [hlb] at h
+  cases hr : envOfPts rect with
+  | none => rw [hr] at h; simp [Env.covers] at h
+  | some rb =>
+    rw [hr] at h
+    exact (containsPt_iff rb p).mpr (covers_has h hb)
+
+/-! non-vacuity: a square with two holes and a rectangle whose four corners lie inside the holes — no corner in the
+polygon, no shell segment crossed, the polygon's envelope neither covered nor bisected: only the hole rings decide -/
+def cheese : Elem := .polygon [[⟨0, 0⟩, ⟨10, 0⟩, ⟨10, 10⟩, ⟨0, 10⟩, ⟨0, 0⟩],
+                                [⟨1, 1⟩, ⟨4, 1⟩, ⟨4, 4⟩, ⟨1, 4⟩, ⟨1, 1⟩], [⟨6, 1⟩, ⟨9, 1⟩, ⟨9, 4⟩, ⟨6, 4⟩, ⟨6, 1⟩]]
+def bridge : List Pt := [⟨2, 2⟩, ⟨8, 2⟩, ⟨8, 3⟩, ⟨2, 3⟩, ⟨2, 2⟩]
+example : rectStage bridge [cheese] = 3 ∧ rectIntersects bridge [cheese] = true ∧ refIntersects bridge [cheese] = true := by decide
+example : segRel (⟨2, 2⟩ : Pt) ⟨8, 2⟩ ⟨4, 1⟩ ⟨4, 4⟩ ≠ .disjoint := by decide
+/-- without the hole rings the same rectangle lies inside one hole-free face: nothing is witnessed -/
+example : rectIntersects [⟨2, 2⟩, ⟨3, 2⟩, ⟨3, 3⟩, ⟨2, 3⟩, ⟨2, 2⟩] [cheese] = false := by decide
+
+end GeosModel.RectFast
+
+/-!
+## The reused scratch point of the XY forms (`Point::setXY`, Model/Relate/ScratchPoint.lean)
+
+`GEOSPreparedContainsXY` / `GEOSPreparedIntersectsXY` overwrite one `Point` per context and hand it to the ordinary
+prepared predicate.  That the XY forms equal the point forms needs: after `setXY(x, y)` the point is indistinguishable
+from a freshly built `POINT (x y)` — coordinate AND cached envelope — whatever was asked before.
+-/
+namespace GeosModel.ScratchPoint
+open GeosModel
+
+theorem setXY_len (s : PointSt) (x y : Int) (h : s.coords.length ≤ 1) : (setXY s x y).coords.length ≤ 1 := by
+  unfold setXY
+  cases hc : s.coords with
+  | nil => simp
+  | cons c r => rw [hc] at h; simp at h; simp [h]
+
+/-- **`setXY` forgets the past**: the state after `setXY(x, y)` is that of a fresh `POINT (x y)` -/
+theorem setXY_eq_fresh (s : PointSt) (x y : Int) (h : s.coords.length ≤ 1) : setXY s x y = fresh (some (x, y)) := by
+  unfold setXY fresh
+  cases hc : s.coords with
+  | nil => rfl
+  | cons c r =>
+    rw [hc] at h
+    have : r = [] := by cases r with
+      | nil => rfl
+      | cons _ _ => simp at h
+    subst this; rfl
+
+theorem run_len (s : PointSt) (ops : List (Int × Int)) (h : s.coords.length ≤ 1) : (run s ops).coords.length ≤ 1 := by
+  induction ops generalizing s with
+  | nil => exact h
+  | cons o r ih => exact ih (setXY s o.1 o.2) (setXY_len s o.1 o.2 h)
+
+/-- after any history of XY queries the scratch point equals a fresh point at the last queried position -/
+theorem run_last (s : PointSt) (ops : List (Int × Int)) (x y : Int) (h : s.coords.length ≤ 1) :
+    run s (ops ++ [(x, y)]) = fresh (some (x, y)) := by
+  unfold run
+  rw [List.foldl_append]
+  exact setXY_eq_fresh _ x y (run_len s ops h)
+
+/-- the cached envelope always is the envelope of the coordinate (also when only one ordinate changed) -/
+theorem run_coherent (s : PointSt) (ops : List (Int × Int)) (hne : ops ≠ []) (h : s.coords.length ≤ 1) :
+    Coherent (run s ops) := by
+  obtain ⟨init, last, rfl⟩ : ∃ i l, ops = i ++ [l] := ⟨ops.dropLast, ops.getLast hne, (List.dropLast_concat_getLast hne).symm⟩
+  obtain ⟨x, y⟩ := last
+  rw [run_last s init x y h]
+  exact ⟨rfl, by simp [fresh]⟩
+
+example : run (fresh (some (5, 20))) [(5, 5)] = fresh (some (5, 5)) := by decide
+example : (run (fresh none) [(5, 20), (5, 5), (30, 5)]).env = some ⟨30, 30, 5, 5⟩ := by decide
+
+end GeosModel.ScratchPoint
